@@ -1039,7 +1039,11 @@ func runC08(c *vlib.Ctx) {
 				[]c08Op{{K: "splitsv", A: 1, Shape: "half-in-block"}, {K: "merge", A: 2, B: []uint64{1}}},
 				[]c08Op{{K: "merge", A: 3, B: []uint64{5}}, {K: "newversion"}, {K: "renumber", A: 77, B: []uint64{3}}},
 				// two open siblings that both re-mapped a supervoxel already mapped by their parent; focus back on the older one
-				[]c08Op{{K: "merge", A: 1, B: []uint64{2}}, {K: "newversion"}, {K: "cleave", A: 1, B: []uint64{2}}, {K: "fork"}, {K: "cleave", A: 1, B: []uint64{2}}, {K: "switch"}})
+				[]c08Op{{K: "merge", A: 1, B: []uint64{2}}, {K: "newversion"}, {K: "cleave", A: 1, B: []uint64{2}}, {K: "fork"}, {K: "cleave", A: 1, B: []uint64{2}}, {K: "switch"}},
+				// a supervoxel that is re-mapped only on a sibling branch (merged there), never in the focused version's own ancestry:
+				// focus on the younger sibling, and on the older one
+				[]c08Op{{K: "newversion"}, {K: "merge", A: 1, B: []uint64{2}}, {K: "fork"}},
+				[]c08Op{{K: "newversion"}, {K: "fork"}, {K: "merge", A: 1, B: []uint64{2}}, {K: "switch"}})
 		}
 		for lvl := 1; lvl <= d && len(frontier) > 0; lvl++ {
 			jobs := make([]string, len(frontier))
@@ -1112,7 +1116,7 @@ func runC08(c *vlib.Ctx) {
 	c.Set("transitions", transitions)
 	c.Set("traces_validated_against_impl", transitions)
 	c.Set("read_requests", reads)
-	c.Set("bound", fmt.Sprintf("BFS depth %d (big-label layout: %d) over merge / cleave / split-supervoxel (6 shapes) / renumber / mutating raw writes (3 regions x 3 fills) / newversion / branch, valid and invalid arguments, on a 32x32x16 volume of 16^3 blocks; fork (second open child of the leaf's parent) / switch (focus on another open version); plus 4 deep roots (namesake supervoxel cleaved away, split remainder merged elsewhere, renumbered merge target in a child version, two open siblings that both re-mapped a supervoxel mapped by their parent) expanded 1 level (thorough 2)", depth, depth-1))
+	c.Set("bound", fmt.Sprintf("BFS depth %d (big-label layout: %d) over merge / cleave / split-supervoxel (6 shapes) / renumber / mutating raw writes (3 regions x 3 fills) / newversion / branch, valid and invalid arguments, on a 32x32x16 volume of 16^3 blocks; fork (second open child of the leaf's parent) / switch (focus on another open version); plus 6 deep roots (namesake supervoxel cleaved away, split remainder merged elsewhere, renumbered merge target in a child version, two open siblings that both re-mapped a supervoxel mapped by their parent, a supervoxel merged only on the older / only on the younger sibling of the focused version) expanded 1 level (thorough 2)", depth, depth-1))
 	c.Sample(map[string]interface{}{"history": "merge(1[4]) cleave(1[4]) splitsv(2,cross-border)", "checked": "all versions: raw, raw?supervoxels, mapping, size, sizes, supervoxels, supervoxel-sizes, sparsevol, sparsevol-size, sparsevol-coarse, index, labels (every voxel), label, maxlabel; ghost bodies"})
 	c.Set("rule", "state = reference model (supervoxel array + mapping per version) reached by a history; transition = one real request followed by runtime-level quiescence; after every transition every read endpoint of every version is compared with the scan of stored supervoxels + mapping, and the scan with the reference model")
 	c.Assume("body split (/split) is disabled in the default server configuration and not part of the alphabet")
